@@ -703,6 +703,7 @@ def jobs_for(tier):
         J.append({'fam': 'U12', 'order': two_first, 'inj': None, 'cutsel': 'all'})
         J.append({'fam': 'U12', 'order': inter, 'inj': {'kind': 'unk', 'pos': 3}, 'cutsel': 'struct'})
         J.append({'fam': 'U12', 'order': inter, 'inj': {'kind': 'dup', 'pos': 3}, 'cutsel': 'struct'})
+        J.append({'fam': 'U12', 'order': two_first, 'inj': {'kind': 'unk', 'pos': 0}, 'cutsel': 'struct'})    # unknown channel 16 while channel 1 is live
     for fam in ('U0', 'E0'):
         for mode in ('natural', 'eager'):
             J.append({'fam': fam, 'order': [0, 1, 2], 'inj': None, 'cutsel': 'all', 'mode': mode})
@@ -884,7 +885,7 @@ def run_shard(ctx, shard, plan, tier, t_end):
                 if F.conc:
                     il = '%s:%s' % (F.name, ''.join(sorted(r['idlens'])))
                     res['idlens'][il] = res['idlens'].get(il, 0) + 1
-                if len(res['samples']) < 2 and pi in (3, 40):
+                if len(res['samples']) < 2 and (pi in (3, 40) or not res['samples']):
                     res['samples'].append({'case': case, 'n': r['n'], 'id_base': r['id_base'], 'outcome': r['outcome'],
                                            'transcript': r['transcript'][:700]})
                 if r['crash']:
@@ -1021,7 +1022,7 @@ def bound_text(tier):
                 'U12 (12 in flight, channels 1..12): 2 orders x cuts inside/after every channel ID and at line boundaries; '
                 'U0/E0 (concurrency 0): every byte cut, helper answering line by line and helper answering ahead')
     return ('U3/E3: all 6 reply orders x {no injection, unknown/duplicate/non-numeric channel injected before each reply} x every byte cut (and uncut); '
-            'U12: 4 orders x structural cuts, 1 order x every byte cut, unknown/duplicate injection x structural cuts; U0/E0: every byte cut in both helper modes')
+            'U12: 4 orders x structural cuts, 1 order x every byte cut, unknown (twice) / duplicate injection x structural cuts; U0/E0: every byte cut in both helper modes')
 
 
 def replay(ctx, data):
